@@ -119,7 +119,7 @@ def build(src):
     net = (ni, [(t, list(o)) for t, o in gs])
     ng = len(gs)
     r = random.Random(src['vs'])
-    labels = None
+    labels = list(src['labels']) if src.get('labels') else None
     if src['variant'] == 'relabel':
         pool = WEIRD + [f'L{j}' for j in range(ni + ng)]
         r.shuffle(pool)
